@@ -137,7 +137,7 @@ impl Scenario for C12 {
     fn runs(&self, tier: Tier) -> u64 {
         match tier {
             Tier::Quick => 40_000,
-            Tier::Thorough => 1_500_000,
+            Tier::Thorough => 2_500_000,
         }
     }
     fn generate(&self, rng: &mut Rng, tier: Tier, _idx: u64) -> C12Plan {
